@@ -2,6 +2,7 @@
 Model/C05Channels.v vs Spec/C05Spec.v; JSON scalars vs the regenerated YAML resolver tables."""
 import json
 import math
+import sys
 
 from tie import framework as fw
 from tie.framework import g_bool, g_list, g_pair, g_str, g_Z, run_impl_parallel
@@ -335,6 +336,7 @@ def known_cases(rng):
 
 
 def generate(rng, tier):
+    ensure_judge()
     cases = list(known_cases(rng).values())
     cases.append(make_case(rng, ["any"], {"l": [{"f": "19974.0"}, False]}, modes=["yaml", "jsonnet"], key=["g", "k"]))
     cases.append(make_case(rng, ["set", ["int"]], {"l": [{"i": "3"}, {"i": "1"}]}, key=["items"]))
@@ -611,3 +613,74 @@ META = {
                  "_check_type for str/scalar positions + verified regex-inclusion certificate on regenerated resolver tables; "
                  "correspondence over every channel x parser mode evaluated in Coq",
 }
+
+
+# ---------------------------------------------------------------------------------------------------------------------
+# when a proof or the tie broke: look for a concrete failing input
+# ---------------------------------------------------------------------------------------------------------------------
+def ensure_judge():
+    """The judge does not depend on the theorems; when the proofs no longer build (make stops, possibly leaving the judge
+    behind a regenerated table) build it on its own so that the correspondence can still find the failing input."""
+    import os
+
+    def mtime(p):
+        p = os.path.join(fw.COQ, p)
+        return os.path.getmtime(p) if os.path.exists(p) else 0
+
+    if mtime("Corr/C05Judge.vo") < max(mtime("Gen/C01Resolvers.vo"), mtime("Model/TyLoader.vo"), mtime("Corr/C05Judge.v")) \
+            or mtime("Properties/C05.vo") < mtime("Gen/C01Resolvers.vo"):
+        fw.build(["Corr/C05Judge.vo"])
+
+
+def checker_witnesses():
+    """counter-examples of the verified inclusion checker: JSON numbers the loader table does not resolve to int / float"""
+    import os
+    import re as _re
+    import shutil
+    import subprocess
+    import tempfile
+
+    d = tempfile.mkdtemp(prefix="jv_c05w_")
+    try:
+        with open(os.path.join(d, "w.v"), "w") as f:
+            f.write("From JV Require Import Lib.Base Lib.Regex Model.Scalar Model.C05Channels Gen.C01Resolvers.\n"
+                    "Eval vm_compute in (witness 4000 (And json_int_re (Not (tag_re loader_table TgInt)))).\n"
+                    "Eval vm_compute in (witness 4000 (And json_float_re (Not (tag_re loader_table TgFloat)))).\n")
+        p = subprocess.run("cd %s && timeout 300 coqc -Q %s JV w.v" % (d, fw.COQ), shell=True, stdout=subprocess.PIPE,
+                           stderr=subprocess.STDOUT, timeout=400)
+        out = p.stdout.decode(errors="replace")
+        res = []
+        for m in _re.finditer(r"=\s*Some\s*\[([0-9;\s%N]*)\]", out):
+            res.append("".join(chr(int(x.replace("%N", ""))) for x in m.group(1).split(";") if x.strip()))
+        return res
+    finally:
+        shutil.rmtree(d, ignore_errors=True)
+
+
+def search(rng, tier, broken):
+    ensure_judge()
+    texts = []
+    try:
+        texts = checker_witnesses()
+    except Exception:
+        pass
+    texts += ["1e+16", "1e-07", "2E5", "-3e2", "0e0", "1.5e300", "12", "-7", "0", "0.5", "-0.25", "1.0e2"]
+    cases = []
+    for w in texts:
+        try:
+            x = json.loads(w)
+        except ValueError:
+            continue
+        v = {"f": w} if isinstance(x, float) else {"i": w}
+        for t in (["float"], ["int"], ["list", ["float"]], ["any"]):
+            vv = {"l": [v]} if t[0] == "list" else v
+            cases.append(make_case(rng, t, vv, key=["k"]))
+    cases += generate(rng, "quick")[:300]
+    obs = observe(cases)
+    bm, bi, bo = fw.judge_cases(sys.modules[__name__], cases, obs, tag="x")
+    known = fw.load_known_findings(PROP)
+    bad = sorted(set(bi) | {i for i, k in bo if FINDING_CLASSES.get(k) not in known} | set(bm))
+    if not bad:
+        return None
+    i = bad[0]
+    return {"case": cases[i], "observed": obs[i], "explain": describe(cases[i], obs[i])}
